@@ -122,6 +122,17 @@ type Run struct {
 	closed      bool
 }
 
+// CaseTrace makes NoteCase print; the supervisor sets VERIF_CASE_TRACE for the run that
+// confirms a fatal crash alone, so that the crash can be attributed to a scenario.
+var CaseTrace = os.Getenv("VERIF_CASE_TRACE") != ""
+
+// NoteCase records which scenario is about to run (only printed under CaseTrace).
+func NoteCase(s string) {
+	if CaseTrace {
+		fmt.Fprintf(os.Stderr, "verif-case: %s\n", s)
+	}
+}
+
 // Thorough is set by the driver for the thorough tier (scenarios may scale bounds with it).
 var Thorough bool
 
